@@ -1,4 +1,4 @@
-CONSTANTS Types = {"tx", "full", "filtered", "metadata", "rollupdata"}  MaxDepth = 4  MaxIdx = 6
+CONSTANTS Types = {"tx", "full", "filtered", "filtered_empty", "metadata", "rollupdata"}  MaxDepth = 4  MaxIdx = 6
 INIT Init
 NEXT Next
 INVARIANTS NoThirdWayOut AcceptedIsConsistent Export
